@@ -443,8 +443,9 @@ def _sigma(p):
     K = CTX.kind
     if is_poly(p):
         for v, kind in list(K.items()):
-            if kind[0] == 'sqrt' and is_poly(kind[1]):
-                while True:
+            if kind[0] == 'sqrt' and is_poly(kind[1]) and any(m_ != () for m_ in kind[1].t):
+                # (a constant radicand divides everything: it is handled by the rational content, never pulled out here)
+                for _guard in range(64):
                     q = exact_div(p, kind[1])
                     if q is None:
                         break
